@@ -44,8 +44,7 @@ package basestore
 //@   props C12 C04 C03 C10
 //@   safety C12
 //@   flag nilcalls
-//@   requires b.identity != nil && b.access != nil && b.options != nil && b.replicator != nil
-//@   requires b.tracer != nil && b.options.IO != nil
+//@   requires wf(b) && b.options.IO != nil
 //@   loop 1 invariant len(verified) <= $i
 //@   loop 1 invariant @C12 forall j Int :: 0 <= j && j < len(verified) ==> verified[j] != nil && ref(verified[j]) != 0
 //@   loop 1 invariant @C03 @C04 @C10 forall j Int :: 0 <= j && j < len(verified) ==> canAppendOK(b.access, verified[j]) && cidStr(contentHash(verified[j])) == hs(verified[j])
@@ -61,8 +60,7 @@ package basestore
 //@   props C12 C09 C10
 //@   safety C12
 //@   flag nilcalls
-//@   requires b != nil && b.messageMarshaler != nil && b.logger != nil
-//@   requires b.identity != nil && b.access != nil && b.options != nil && b.replicator != nil && b.tracer != nil && b.options.IO != nil
+//@   requires wf(b) && b.messageMarshaler != nil && b.options.IO != nil
 //@   loop 1 noexit
 //@   assume @ loop 1 body: evt != nil
 //@   loop 1.1 invariant len(entries) == len(msg.Heads)
@@ -180,7 +178,7 @@ package basestore
 //@ func (*BaseStore).handleEventWrite
 //@   props C09
 //@   flag nilcalls
-//@   requires b.logger != nil && b.messageMarshaler != nil && e != nil && b.address != nil && addrStr(b.address) == b.id
+//@   requires wf(b) && b.messageMarshaler != nil && e != nil && b.address != nil && addrStr(b.address) == b.id
 //@   ghost P0 := topic != nil ? pubCount(topic) : 0
 //@   loop 1 invariant len(entries) == len(e.Heads)
 //@   loop 1 invariant forall j Int :: 0 <= j && j < i ==> entries[j] == ref(e.Heads[j])
@@ -194,7 +192,7 @@ package basestore
 //@ func (*BaseStore).exchangeHeads
 //@   props C05 C09
 //@   flag nilcalls
-//@   requires b.logger != nil && b.messageMarshaler != nil && b.directChannel != nil && b.cache != nil
+//@   requires wf(b) && b.messageMarshaler != nil && b.directChannel != nil
 //@   ghost D := b.directChannel
 //@   ghost S0 := dcSent(b.directChannel)
 //@   assert @ before call b.directChannel.Send#1: payload == encMsg(b.id, heads)
